@@ -487,6 +487,25 @@ impl IntoLower for ast::FnCall {
     }
 }
 
+/// Short rendering of an expression for error messages. The derived debug rendering of an
+/// analyzed node includes every scope it was resolved against and can run to gigabytes.
+fn describe_expr(expr: &ast::DataExpr) -> String {
+    match expr {
+        ast::DataExpr::Identifier(x) => x.value.clone(),
+        ast::DataExpr::Number(x) => x.to_string(),
+        ast::DataExpr::StructConstructor(x) => format!("{} {{..}}", x.r#type.value),
+        ast::DataExpr::FnCall(x) => format!("{}(..)", x.callee.value),
+        ast::DataExpr::PropertyOp(x) => format!(
+            "{}.{}",
+            describe_expr(&x.operand),
+            describe_expr(&x.property)
+        ),
+        ast::DataExpr::ListConstructor(_) => "[..]".to_string(),
+        ast::DataExpr::MapConstructor(_) => "{..}".to_string(),
+        _ => "<expression>".to_string(),
+    }
+}
+
 impl IntoLower for ast::PropertyOp {
     type Output = ir::Expression;
 
@@ -496,11 +515,11 @@ impl IntoLower for ast::PropertyOp {
         let ty = self
             .operand
             .target_type()
-            .ok_or_else(|| Error::MissingAnalyzePhase(format!("{0:?}", self.operand)))?;
+            .ok_or_else(|| Error::MissingAnalyzePhase(describe_expr(&self.operand)))?;
 
         let prop_index = ty
             .property_index(*self.property.clone())
-            .ok_or_else(|| Error::InvalidProperty(format!("{:?}", self.property), ty.to_string()))?;
+            .ok_or_else(|| Error::InvalidProperty(describe_expr(&self.property), ty.to_string()))?;
 
         Ok(ir::Expression::EvalBuiltIn(Box::new(
             ir::BuiltInOp::Property(object, prop_index.into_lower(ctx)?),
